@@ -424,7 +424,7 @@ func runC07(o *hx.Out, r *hx.Rand, thorough bool) {
 		}
 		for k := 0; k < len(body); k += step {
 			cli("truncated", body[:k], k%2 == 0, true)
-			if thorough {
+			if thorough && small {
 				cli("truncated", body[:k], k%2 != 0, true)
 			}
 		}
@@ -433,7 +433,7 @@ func runC07(o *hx.Out, r *hx.Rand, thorough bool) {
 		}
 		// mutations of the length prefixes: single bits and bytes
 		nm := 6
-		if thorough {
+		if thorough && small {
 			nm = 40
 		}
 		for j := 0; j < nm; j++ {
